@@ -249,6 +249,12 @@ func (f *Frame) call(c *ssa.CallCommon, instr ssa.Value, st *State, reach string
 				}
 			}
 		case "(github.com/cosmos/cosmos-sdk/types.Coins).Add":
+			if len(args) == 2 && args[1].CoinsOf != "" {
+				// x.Add(y...) with y a Coins value
+				g.useTheory("coins")
+				g.trusted["(github.com/cosmos/cosmos-sdk/types.Coins).Add"] = true
+				return Val{Sort: "Coins", Term: g.def(f.name(instr), "Coins", fmt.Sprintf("(Coins_add %s %s)", args[0].Term, args[1].CoinsOf)), GoT: resT}
+			}
 			if len(args) == 2 && args[1].Elems != nil {
 				g.useTheory("coins")
 				g.trusted["(github.com/cosmos/cosmos-sdk/types.Coins).Add"] = true
